@@ -234,6 +234,7 @@ func TestC18(t *testing.T) {
 	// message's string fields) and every SendMsg - with concurrent streams racing
 	streamCalls := c18Streams(cfg, col, r)
 	col.Add("ev_stream_operations", streamCalls)
+	col.Add("ev_injections_racing_the_pruning_of_exhausted_faults", c18AddDuringPrune(cfg, col, r))
 	col.Add("ev_calls", calls)
 	col.Add("ev_trials_with_more_matching_callers_than_count", contended)
 	col.Add("relevant_events", contended)
@@ -441,4 +442,79 @@ func c18Streams(cfg evd.Config, col *evd.Collector, r *rand.Rand) int64 {
 	}
 	col.Add("ev_stream_trials_with_the_fault_injected_into_open_streams", lateTrials)
 	return ops
+}
+
+// c18AddDuringPrune: injections that arrive while exhausted faults of the same
+// operation are being cleaned away. Every exhaustion starts an asynchronous
+// clean-up; an injection acknowledged at any moment of it must still be there
+// afterwards - listed with its full count and firing exactly that often.
+func c18AddDuringPrune(cfg evd.Config, col *evd.Collector, r *rand.Rand) int64 {
+	trials := cfg.N(3000, 300000)
+	var added int64
+	for tr := 0; tr < trials; tr++ {
+		if !cfg.Mine(tr) {
+			continue
+		}
+		set := faults.NewSet(fmt.Sprintf("verif%d", atomic.AddInt64(&setSeq, 1)))
+		m := 2 + r.Intn(10)
+		// m one-shot faults, each keyed on its own parameter value
+		for i := 0; i < m; i++ {
+			set.Add(faults.Description{Operation: "op", Parameters: faults.Parameters{"k": fmt.Sprint("x", i)}, Count: 1,
+				OnFault: func(faults.Description, faults.Parameters) error { return &faultErr{0} }})
+		}
+		late := 1 + r.Intn(8)
+		lateCount := int64(1 + r.Intn(3))
+		fired := make([]int64, late)
+		var start, done sync.WaitGroup
+		start.Add(1)
+		// the callers exhaust the one-shot faults (each exhaustion starts a clean-up) ...
+		for i := 0; i < m; i++ {
+			done.Add(1)
+			go func(i int) {
+				defer done.Done()
+				start.Wait()
+				_ = set.Check("op", faults.Parameters{"k": fmt.Sprint("x", i)})
+			}(i)
+		}
+		// ... while new faults for the same operation are injected
+		done.Add(1)
+		go func() {
+			defer done.Done()
+			start.Wait()
+			for j := 0; j < late; j++ {
+				j := j
+				set.Add(faults.Description{Operation: "op", Parameters: faults.Parameters{"k": fmt.Sprint("late", j)}, Count: lateCount, FaultDescription: fmt.Sprint("late", j),
+					OnFault: func(faults.Description, faults.Parameters) error { atomic.AddInt64(&fired[j], 1); return &faultErr{j} }})
+				runtime.Gosched()
+			}
+		}()
+		start.Done()
+		done.Wait()
+		added += int64(late)
+		ok := func(cur map[string][]faults.Description) bool { return len(cur["op"]) == late }
+		cur := settledCurrent(set, ok)
+		listed := map[string]int64{}
+		for _, d := range cur["op"] {
+			listed[d.Parameters["k"]] = d.Count
+		}
+		for j := 0; j < late; j++ {
+			k := fmt.Sprint("late", j)
+			if c, there := listed[k]; !there || c != lateCount {
+				col.Violation("injected-while-pruning:not-listed", fmt.Sprintf("a fault injected (count %d) while %d exhausted faults of the same operation were being cleaned away is listed as %v afterwards (whole listing: %v)", lateCount, m, listed[k], listed), map[string]any{"one_shot_faults": m, "late_injections": late})
+				break
+			}
+			var failed int64
+			for c := int64(0); c < lateCount+2; c++ {
+				if set.Check("op", faults.Parameters{"k": k}) != nil {
+					failed++
+				}
+			}
+			if failed != lateCount || atomic.LoadInt64(&fired[j]) != lateCount {
+				col.Violation("injected-while-pruning:wrong-count", fmt.Sprintf("a fault injected with count %d while exhausted faults were being cleaned away failed %d of %d matching calls", lateCount, failed, lateCount+2), map[string]any{"one_shot_faults": m, "late_injections": late})
+				break
+			}
+		}
+		col.Case(evd.FP("add-during-prune", m, late, lateCount), true)
+	}
+	return added
 }
